@@ -127,6 +127,10 @@ func selfTest(dump bool, specs []string) []string {
 	pair("MapAccumulate", "", "BadAccumulateOverwrite", func(c *rules.Ctx, fn string) { c.MapAccumulate(fn, "elem(vs)", 0, "summed per key") })
 	pair("KeyLayout", "GoodKey", "BadKeyOpenPrefix", func(c *rules.Ctx, fn string) { c.KeyLayout(fn, "idx/<pool>/<denom>/", "closed prefix") })
 
+	pair("MustStore", "Book.GoodMustStore", "Book.BadMustStore", func(c *rules.Ctx, fn string) { c.MustStore(fn, "Total", "sub(b.Total,n)", "every success books") })
+	pair("StoredObjectIsPassed", "GoodStoredPassed", "BadStoredPassed", func(c *rules.Ctx, fn string) { c.StoredObjectIsPassed(fn, "V", "fx.save", 0, "the modified record is saved") })
+	pair("LoopBodyStraight", "GoodStraight", "BadStraightSkip", func(c *rules.Ctx, fn string) { c.LoopBodyStraight(fn, "no element skipped") })
+
 	// the same rules through helpers that are not in the function inventory (virtual inlining)
 	pair("FailsWhen/helper", "GoodGuardViaHelper", "BadGuardViaHelper", func(c *rules.Ctx, fn string) {
 		c.FailsWhen(fn, "ne(owner,sender)", "only the owner", rules.GuardOpt{Before: "fx.pay"})
